@@ -435,7 +435,7 @@ pub fn run_case(case: &Case) -> CaseResult {
 		};
 		trace.f64(value);
 		// continuity across updates: the previous value of this update is the value of the last one
-		if (previous - current).abs() > eps * (1.0 + current.abs()) {
+		if !((previous - current).abs() <= eps * (1.0 + current.abs())) {
 			res.fail(Violation::new(
 				"continuity",
 				"previous-value-is-not-last-value",
